@@ -714,4 +714,27 @@ def probe_known(ctx, k):
 
 
 def replay(ctx, payload):
+    """Re-evaluate a recorded Spec violation by regenerating the streams of the recorded (seed, tier):
+    False = the recorded input still fails, True = it was re-evaluated and passes now,
+    None = the input could not be regenerated (different sampling regime)."""
+    import hashlib
+    import json
+    from common import show
+    v = payload.get('violation')
+    if not isinstance(v, dict) or 'input' not in v:
+        return None
+    ctx.seed = payload.get('seed', ctx.seed)
+    ctx.tier = payload.get('tier', ctx.tier)
+    want = json.dumps(v['input'], default=str)
+    key = hashlib.sha1(show(v['input'], 10 ** 7).encode()).hexdigest()[:16]
+    seen = False
+    for drift in (ctx.drift, not ctx.drift):
+        ctx.drift = drift
+        for s in run(ctx):
+            for w in s.violations:
+                if json.dumps(json.loads(json.dumps(w['input'], default=str))) == want:
+                    return False
+            seen = seen or key in s.distinct
+        if seen:
+            return True
     return None
